@@ -471,24 +471,19 @@ static int ref_classify(const uint8_t *o, unsigned len, struct ref_frame *f)
         f->pl[i] = o[hlen + i];
     }
     const unsigned ws = (f->options & RP_OPT_WORD_SIZE_16) ? 2 : 1;
-    int verdict = REF_OK;
     if (f->plen % ws != 0)
         return REF_BADSIZE;
+    /* "The Block Size parameter specifies the size of a message's payload,
+     * except for READ-REQUEST messages", which carry none */
     if (f->type == RP_FRAME_READ_REQUEST) {
         if (f->plen != 0)
             return REF_BADSIZE;
     } else if ((uint64_t)f->bs * ws != f->plen) {
-        /* "Block Size specifies the size of a message's payload" vs "responses
-         * mirror the request's header": a payload-free WRITE-RESPONSE / META
-         * with a non-zero block size is accepted either way */
-        if ((f->type == RP_FRAME_WRITE_RESPONSE || f->type == RP_FRAME_META) && f->plen == 0)
-            verdict = REF_SIZE_EITHER;
-        else
-            return REF_BADSIZE;
+        return REF_BADSIZE;
     }
     if (plc && ref_crc(0, f->pl, f->plen) != f->plcrc)
         return REF_BADPLCRC;
-    return verdict;
+    return REF_OK;
 }
 
 /* expected reply for a refused request: error response without payload,
